@@ -12,6 +12,7 @@ requests (one per line, one reply line each):
   `phi K a1 v1 … aK vK`        add `norm.cdf(a) = v` pairs                             → `ok`
   `clear`                      empty both tables                                       → `ok`
   `fuel N`                     series-term bound of the fractional routine             → `ok`
+  `variant asCoded|repaired`   stopping rule of the fractional series (finding C06:frac-series-stops-at-first-term) → `ok`
   `logadd x y` / `logsub x y`  `_log_add` / `_log_sub`                                 → log-space value | err
   `logaint q sigma n`          `_compute_log_a_for_int_alpha`                          → log-space value
   `fracargs q sigma alpha N`   the 2N points at which the first N series terms call `log_ndtr`
@@ -34,12 +35,13 @@ structure St where
   ndtr : Std.HashMap UInt64 Float := {}
   phi : Std.HashMap UInt64 Float := {}
   fuel : Nat := 4096
+  repaired : Bool := false
 
 def nanF : Float := 0.0 / 0.0
 
 def St.lnd (s : St) : Float → Float := fun x => (s.ndtr.get? x.toBits).getD nanF
 def St.phiF (s : St) : Float → Float := fun x => (s.phi.get? x.toBits).getD nanF
-def St.cfg (s : St) : Cfg Float := ⟨s.lnd, s.fuel⟩
+def St.cfg (s : St) : Cfg Float := ⟨s.lnd, s.fuel, s.repaired⟩
 
 def order? (t : String) : Option (Order Float) :=
   if t = "inf" then some .inf
@@ -106,6 +108,10 @@ def stepLine (s : St) (line : String) : St × String :=
     | some ps => ({ s with phi := ps.foldl (fun m p => m.insert p.1.toBits p.2) s.phi }, "ok")
     | none => (s, "bad-op")
   | ["clear"] => ({ s with ndtr := {}, phi := {} }, "ok")
+  | ["variant", v] =>
+    if v = "asCoded" then ({ s with repaired := false }, "ok")
+    else if v = "repaired" then ({ s with repaired := true }, "ok")
+    else (s, "bad-op")
   | ["fuel", n] => match n.toNat? with
     | some n => ({ s with fuel := n }, "ok")
     | none => (s, "bad-op")
